@@ -307,6 +307,63 @@ def run_groupby(rep, rng, n):
                                      "groupsDict model differs", detail={"model": model, "impl": seen})
 
 
+def run_frames(rep, rng, n):
+    """checks applied to (a column of) a dataframe with several columns: `ignore_na` hides the nulls of the checked
+    column only; `n_failure_cases` on a check that returns a boolean dataframe reports the first n distinct failure
+    cases of the full report"""
+    import numpy as np
+    import pandera as pa
+    for _ in range(n):
+        m = rng.randint(1, 6)
+        vals = lambda: [rng.choice([-2.0, -1.0, 1.0, 2.0, np.nan]) for _ in range(m)]  # noqa: E731
+        labels = rng.sample(range(10, 40), m) if rng.random() < 0.5 else list(range(m))
+        df = pd.DataFrame({"v": vals(), "w": vals(), "z": vals()}, index=labels)
+        ew = rng.random() < 0.4
+        case = {"mode": "frames", "frame": {k: [None if x != x else x for x in df[k].tolist()] for k in df}, "labels": labels,
+                "element_wise": ew}
+        # (1) a column check inside a frame whose other columns hold nulls too
+        seen = []
+        fn = (lambda x: (seen.append(x), x > 0)[1]) if ew else (lambda s_: (seen.extend(s_.tolist()), s_ > 0)[1])
+        with warnings.catch_warnings():
+            warnings.simplefilter("ignore")
+            res = pa.Check(fn, element_wise=ew, ignore_na=True)(df, "v")
+        want_seen = [x for x in df["v"].tolist() if x == x]
+        want_fail = sorted((lab, x) for lab, x in zip(df.index.tolist(), df["v"].tolist()) if x == x and not x > 0)
+        got_fail = sorted(zip(res.failure_cases.index.tolist(), res.failure_cases.tolist())) if res.failure_cases is not None else []
+        rep.case(case, nontrivial=bool(want_fail))
+        rep.evaluations += 1
+        rep.count("frames:column-check")
+        if sorted(seen) != sorted(want_seen):
+            rep.property_failure(case, f"ignore_na=True on column 'v' of a frame: the function was shown {sorted(seen)}, the non-null "
+                                       f"elements of the column are {sorted(want_seen)}")
+            continue
+        if got_fail != want_fail or bool(res.check_passed) != (not want_fail):
+            rep.property_failure(case, f"column check on a frame: failure cases {got_fail}, the failing non-null elements are {want_fail}")
+            continue
+        # (2) n_failure_cases on a dataframe-level check with a boolean dataframe as output
+        nf = rng.choice([1, 2, 3])
+        with warnings.catch_warnings():
+            warnings.simplefilter("ignore")
+            full = pa.Check(lambda d: d.fillna(1) > 0)(df)
+            cut = pa.Check(lambda d: d.fillna(1) > 0, n_failure_cases=nf)(df)
+        rep.count("frames:table-check")
+        if bool(full.check_passed) != bool(cut.check_passed):
+            rep.property_failure(dict(case, n_failure_cases=nf), "n_failure_cases changes the verdict of a dataframe-level check")
+            continue
+        if full.failure_cases is None:
+            continue
+        norm = lambda fc: [json.dumps(r, sort_keys=True, default=str) for r in fc.to_dict("records")]  # noqa: E731
+        want = []
+        for r in norm(full.failure_cases):
+            if r not in want:
+                want.append(r)
+        got = norm(cut.failure_cases) if cut.failure_cases is not None else []
+        if got != want[:nf]:
+            rep.property_failure(dict(case, n_failure_cases=nf),
+                                 f"n_failure_cases={nf} on a dataframe-level check reports {got}, the first {nf} distinct failure "
+                                 f"cases of the full report are {want[:nf]}")
+
+
 def run_aliases(rep):
     import pandera as pa
     A.ensure_backends()
@@ -347,6 +404,7 @@ def run(tier, replay=None):
     n = 1000 if tier == "quick" else 25000
     run_options(rep, [c for c in corpus_cases(PROP) if "pred" in c] + [gen_case(rng) for _ in range(n)])
     run_groupby(rep, rng, n // 5)
+    run_frames(rep, rng_for(PROP, "frames"), n // 4)
     run_aliases(rep)
     return rep.finish(
         rule="check functions from a generated predicate family (threshold, parity, membership, constant, "
